@@ -458,6 +458,14 @@ def execute(trace, ctx):
         ctx.probe("disconnected_graph")
     if len({r for _, _, r in truth["atoms"]}) > 1:
         ctx.probe("multi_residue")
+    if n >= 3 and len(trace["ops"]) % 3 == 0:
+        # a question the function cannot answer (the first atoms only, with bonds pointing outside the list): whatever it
+        # does with it, the next question about the whole molecule must get its own answer
+        try:
+            are_connected(mt.atoms[:max(1, n // 3)])
+        except Exception:
+            ctx.fault("refused_connectivity_call")
+        ctx.probe("partial_atom_list_asked_first")
     old = sys.getrecursionlimit()
     lim = trace.get("reclimit")
     # the budget is always set relative to the current depth, so that the outcome does not depend on how deep
